@@ -26,6 +26,7 @@ pub struct GTracer<'a> {
 
 fn gobs(game: &Game) -> Value {
     let mut o = obs(game.board());
+    o["gfm"] = json!(game.fullmove_clock());
     o["last"] = match game.most_recent_move() {
         Some(m) => Mv::of(&m).to_json(),
         None => json!({"k": "-", "f": 0, "t": 0, "p": 0, "c": 0}),
@@ -112,6 +113,17 @@ impl<'a> GTracer<'a> {
         }
         Ok(None)
     }
+    /// the labelled move list as the Game hands it to its front ends
+    pub fn glabels(&mut self, game: &mut Game) -> bool {
+        match guarded(|| game.enumerated_candidate_moves()) {
+            Ok(e) => {
+                let labels: Vec<Value> = e.iter().map(|(m, t)| json!([Mv::of(m).to_json(), t])).collect();
+                self.emit(json!({"ev": "GLabels", "labels": labels}), game);
+                true
+            }
+            Err(_) => false,
+        }
+    }
     pub fn engine_move(&mut self, game: &mut Game, book: bool) -> bool {
         let r = guarded(|| if book { game.select_waterfall_book_then_alpha_beta_best_move() } else { game.select_alpha_beta_best_move() });
         let res = match r {
@@ -189,6 +201,9 @@ fn typed_game(tr: &mut GTracer, rng: &mut Rng, start: Board, plies: usize, full_
             Err(_) => return,
         };
         if enumerated.is_empty() {
+            return;
+        }
+        if ply % 3 == 0 && !tr.glabels(&mut game) {
             return;
         }
         let labels: Vec<String> = enumerated.iter().map(|x| x.1.clone()).collect();
@@ -393,6 +408,19 @@ fn odds_book(tr: &mut GTracer, book: &Book, rng: &mut Rng, reps: usize, max_node
 }
 
 /// record-game <out> --scenario typed|shuffle|book|offbook --seed N --games G --plies P
+const MATE_IN_ONE: [&str; 4] = [
+    "6k1/5ppp/8/8/8/8/8/R5K1 w - -",
+    "rnbqkbnr/pppp1ppp/8/4p3/6P1/5P2/PPPPP2P/RNBQKBNR b KQkq -",
+    "7k/8/5KQ1/8/8/8/8/8 w - -",
+    "6K1/8/5kq1/8/8/8/8/8 b - -",
+];
+const TRIANGLES: [(&str, &str); 4] = [
+    ("rnbqkbnr/pppppppp/8/8/8/8/PPPPPPPP/RNBQKBNR w KQkq -", "e2e3 g8f6 f1d3 f6g8 d3e2 g8f6 e2f1 f6g8 d2d4 g8f6"),
+    ("4k3/8/8/8/8/8/8/4K3 w - -", "e1d1 e8d8 d1d2 d8e8 d2e1 e8d8 e1d1 d8e8 d1d2 e8d8 d2e1"),
+    ("4k3/8/8/8/8/8/8/3QK3 w - -", "d1d2 e8f8 d2d3 f8e8 d3d1 e8f8 d1d2 f8e8 d2d3 e8f8 d3d1 f8e8"),
+    ("r3k2r/pppppppp/8/8/8/8/PPPPPPPP/R3K2R b KQkq -", "a8b8 a1b1 b8c8 b1a1 c8a8 a1b1 a8b8 b1a1"),
+];
+
 pub fn main(args: &[String]) {
     let out_path = &args[0];
     let seed = arg_u64(args, "--seed", 1);
@@ -412,7 +440,15 @@ pub fn main(args: &[String]) {
     match scenario.as_str() {
         "typed" => {
             for g in 0..games {
-                let start = if g % 2 == 0 || seeds.is_empty() { Board::starting_position() } else { seeds[rng.below(seeds.len())].setup() };
+                let start = if g % 4 == 3 {
+                    // a quiet mating move is available and the half-move clock stands at 98 or 99
+                    let fen = MATE_IN_ONE[rng.below(MATE_IN_ONE.len())];
+                    crate::trace::parse_fen(fen).setup_clocks(98 + rng.below(2) as u64, 60)
+                } else if g % 2 == 0 || seeds.is_empty() {
+                    Board::starting_position()
+                } else {
+                    seeds[rng.below(seeds.len())].setup()
+                };
                 typed_game(&mut tr, &mut rng, start, plies, full_every, 50);
                 histories += 1;
             }
@@ -433,6 +469,29 @@ pub fn main(args: &[String]) {
             let book = Book::default();
             let reps = arg_u64(args, "--reps", 4) as usize;
             histories = odds_book(&mut tr, &book, &mut rng, reps, arg_u64(args, "--max-nodes", 80) as usize);
+        }
+        "triangle" => {
+            // the same placement comes back with the OTHER side to move: the labelled list must be that side's
+            for (fen, mv) in TRIANGLES.iter() {
+                let mut game = Game::from_board(crate::trace::parse_fen(fen).setup(), 1);
+                tr.reset(&game);
+                if !tr.glabels(&mut game) {
+                    continue;
+                }
+                for u in mv.split_whitespace() {
+                    let ch: Vec<char> = u.chars().collect();
+                    let f = (ch[0] as u8 - b'a') + (ch[1] as u8 - b'1') * 8 + 1;
+                    let t = (ch[2] as u8 - b'a') + (ch[3] as u8 - b'1') * 8 + 1;
+                    match tr.coords(&mut game, &[(f, t)]) {
+                        Ok(Some(_)) => tr.toggle(&mut game),
+                        _ => break,
+                    }
+                    if !tr.glabels(&mut game) {
+                        break;
+                    }
+                }
+                histories += 1;
+            }
         }
         "longgame" => {
             // "after any legal history": long capture-free shuffles (the half-move clock passes the draw
